@@ -90,6 +90,28 @@ func stdFD(c net.Conn) int {
 	return fd
 }
 
+var (
+	refusedOnce sync.Once
+	refusedA    string
+)
+
+// refusedAddr returns an address that refuses connections for the life of the process: a socket that
+// is bound (so no other process can take the port meanwhile) but never listens.
+func refusedAddr() string {
+	refusedOnce.Do(func() {
+		fd, err := syscall.Socket(syscall.AF_INET, syscall.SOCK_STREAM, 0)
+		if err != nil {
+			return
+		}
+		if syscall.Bind(fd, &syscall.SockaddrInet4{Addr: [4]byte{127, 0, 0, 1}}) != nil {
+			return
+		}
+		sa, _ := syscall.Getsockname(fd)
+		refusedA = fmt.Sprintf("127.0.0.1:%d", sa.(*syscall.SockaddrInet4).Port)
+	})
+	return refusedA
+}
+
 // fullBacklogListener returns the address of a listening socket whose accept queue is full, so that
 // further connects neither complete nor are refused.
 func fullBacklogListener() (addr string, cleanup func(), err error) {
@@ -372,9 +394,7 @@ func runCase(c Case) vlib.Result {
 				addr = liveLn.Addr().String()
 				lc.expectEstablished = true
 			case "dial-refused":
-				l, _ := net.Listen("tcp", "127.0.0.1:0")
-				addr = l.Addr().String()
-				l.Close()
+				addr = refusedAddr()
 			default:
 				addr = backlogAddr
 				timeout = 150 * time.Millisecond
